@@ -1,8 +1,129 @@
 /-
-  C09 — property theorems (only `theorem C09_*` statements and non-vacuity examples live here;
-  helper lemmas go to CedarGoProofs/Lemmas/).
+  C09 — The JSON policy codec round-trips (JSON-tree level).
+
+  Model: CedarGo/Model/Json/Policy.lean — `toJ` (= `Policy.MarshalJSON` / `nodeJSON.FromNode`), `fromJ`
+  (= `Policy.UnmarshalJSON`: phase 1 `json.Unmarshal` into `nodeJSON` with `DisallowUnknownFields` and the
+  unknown-key-is-extension fallback, phase 2 `ToNode` with `len(map) = 1`), `setToJ` / `setFromJ` for policy
+  sets.  Tied to internal/json by the correspondence ops json-encode / json-decode / jsonset-encode /
+  jsonset-decode on generated documents and on near-miss documents (accept / reject / panic / decoded policy).
+
+  FULL STATEMENT (not a theorem: the code violates it):
+      ∀ p, ∃ p', fromJ (toJ p) = .ok p' ∧ p' ≈ p
+  where `p' ≈ p` (`JsonEquiv`) is: `p' = normP p`, i.e. identical effect, scopes, condition kinds and every
+  expression node, literal and pattern, EXCEPT the stated identifications — annotations and record-literal
+  entries as key ↦ value maps (listed by key, a later duplicate wins), a literal decimal / ip VALUE identified
+  with the constructor call JSON writes for it, patterns re-built by `NewPattern`, source position dropped.
+  It fails for a `like` with a zero-component pattern (`C09_like_empty_pattern_counterexample`), for calls of
+  unknown functions (`C09_unknown_function_counterexample`, outside the JSON format by design) and for literal
+  values outside C13's fragment.  The `_partial` theorems restrict to `p.JsonRenderable` (decidable).
+
+  `C09_encodings_authorize_alike_partial`: the decoded policy is satisfied exactly when the original is, in every
+  environment — proved on the fragment `JsonSemNormal` (record literals already key-sorted, patterns already in
+  `NewPattern` normal form, decimal / ip literals whose text parses back), where the identifications reduce to
+  "literal value = constructor call".  Outside it the statement holds only up to the error KIND of a record literal
+  with two failing entries (evaluation order = Go map order: C14) and needs a lemma on `NewPattern` normal forms.
+
+  NOT PROVED HERE (direct oracle only, harness/cmd/vh/c09.go): agreement with the TEXT codec (needs the parser /
+  printer models of C07 / C08).
 -/
-import CedarGo.Model.Fold
+import CedarGoProofs.Lemmas.C09h
 namespace CedarGo
+open JsonModel
+
+/-- the fragment of policies the JSON format can carry: see `renderableP` / `renderableE` -/
+def Policy.JsonRenderable (p : Policy) : Prop := renderableP p = true
+def Expr.JsonRenderable (e : Expr) : Prop := renderableE e = true
+instance (p : Policy) : Decidable p.JsonRenderable := by unfold Policy.JsonRenderable; infer_instance
+instance (e : Expr) : Decidable e.JsonRenderable := by unfold Expr.JsonRenderable; infer_instance
+
+/-- **Expressions**: both phases of the decoder on the encoding of `e` succeed and give `normE e`. -/
+theorem C09_expr_json_roundtrip_partial (e : Expr) (h : e.JsonRenderable) :
+    ∃ n, decodeNode (exprToJ e) = .ok n ∧ nodeToExpr n = .ok (normE e) :=
+  ⟨embed e, expr_roundtrip e h⟩
+
+/-- **Policies**: decoding the JSON encoding yields the same policy up to the stated identifications. -/
+theorem C09_json_roundtrip_partial (p : Policy) (h : p.JsonRenderable) :
+    ∃ p', fromJ (toJ p) = .ok p' ∧ JsonEquiv p' p :=
+  ⟨normP p, json_roundtrip p h, rfl⟩
+
+/-- what is kept exactly: effect, the three scopes, the number and kind of conditions -/
+theorem C09_json_roundtrip_keeps_partial (p p' : Policy) (h : p.JsonRenderable) (hd : fromJ (toJ p) = .ok p') :
+    p'.effect = p.effect ∧ p'.principal = p.principal ∧ p'.action = p.action ∧ p'.resource = p.resource ∧
+    p'.conditions.map (·.1) = p.conditions.map (·.1) := by
+  rw [json_roundtrip p h] at hd
+  cases hd
+  simp [normP, List.map_map, Function.comp_def]
+
+/-- **Policy sets**: the ids are preserved and every policy round-trips (`sortKV`: the set as an id ↦ policy map,
+    listed by id). -/
+theorem C09_policyset_json_roundtrip_partial (ps : List (PolicyID × Policy)) (h : ∀ ip ∈ ps, ip.2.JsonRenderable) :
+    setFromJ (setToJ ps) = .ok (sortKV (ps.map fun ip => (ip.1, normP ip.2))) := by
+  apply policyset_roundtrip
+  simp only [List.all_eq_true]
+  exact h
+
+/-- see the file header -/
+def Policy.JsonSemNormal (p : Policy) : Prop := p.conditions.all (fun c => semNormalE c.2) = true
+instance (p : Policy) : Decidable p.JsonSemNormal := by unfold Policy.JsonSemNormal; infer_instance
+
+/-- **All encodings authorize alike** (partial: fragment `JsonSemNormal`): the policy decoded from the JSON encoding
+    has the same effect and is satisfied / unsatisfied / erroring (same error kind) exactly like the original, both
+    as `PolicyToNode` says and as the authorizer's compiled (folded) form computes it. -/
+theorem C09_encodings_authorize_alike_partial (p p' : Policy) (hr : p.JsonRenderable) (hs : p.JsonSemNormal)
+    (hd : fromJ (toJ p) = .ok p') (env : Env) :
+    p'.effect = p.effect ∧ evalBool (policyToExpr p') env = evalBool (policyToExpr p) env ∧
+    evalBool (compile p') env = evalBool (compile p) env := by
+  rw [json_roundtrip p hr] at hd
+  cases hd
+  refine ⟨rfl, normP_preserves p env hs, ?_⟩
+  rw [C04_compile_preserves, C04_compile_preserves, normP_preserves p env hs]
+
+def c09Example : Policy :=
+  { effect := .permit, annotations := [("id", "x"), ("a", "b")],
+    principal := .isIn "User" ("Group", "g"), action := .inSet [("Action", "r"), ("Action", "w")], resource := .eq ("Doc", "d"),
+    conditions := [(true, .binop .and (.like (.access (.var .context) "s") [⟨true, [97]⟩, ⟨true, []⟩])
+                            (.call "isInRange" [.lit (.ip ⟨false, 167772161, 32⟩), .call "ip" [.lit (.str "10.0.0.0/8")]])),
+                   (false, .record [("k", .lit (.decimal 15000)), ("a", .set [.lit (.long 1), .lit (.set [.long 2])])])] }
+
+example : c09Example.JsonRenderable := by decide +kernel
+example : ({ c09Example with conditions := [(true, .binop .eq (.lit (.decimal 15000)) (.record [("a", .lit (.ip ⟨false, 1, 32⟩)), ("b", .var .context)]))] } : Policy).JsonSemNormal := by
+  decide +kernel
+
+/-- the identifications are visible on the example: the annotations come back by key -/
+example : (normP c09Example).annotations = [("a", "b"), ("id", "x")] := by decide +kernel
+
+/-! ### where the full statement fails -/
+
+/-- a `like` whose pattern has no components is encoded as `"pattern": []`, which the decoder refuses -/
+theorem C09_like_empty_pattern_counterexample :
+    ∃ p : Policy, fromJ (toJ p) = .error .reject :=
+  ⟨{ effect := .permit, conditions := [(true, .like (.lit (.str "a")) [])] }, isRejectP_eq (by decide +kernel)⟩
+
+/-- a call of a name that is not an extension function is written as `{name: [...]}` and refused on decoding
+    (the JSON format has no other way to carry it) -/
+theorem C09_unknown_function_counterexample :
+    ∃ p : Policy, fromJ (toJ p) = .error .reject :=
+  ⟨{ effect := .permit, conditions := [(true, .call "nosuchfn" [.lit (.long 1)])] }, isRejectP_eq (by decide +kernel)⟩
+
+/-! ### the decoder's two special rules -/
+
+/-- an unknown key is an extension call, provided it is the only key (`len(map) = 1`) and names a known function -/
+theorem C09_unknown_key_is_extension :
+    isCondP (fromJ (condDoc (.obj [("decimal", .arr [.obj [("Value", .str "1.0")]])])))
+        (fun e => match e with | .call "decimal" [.lit (.str "1.0")] => true | _ => false) = true ∧
+    fromJ (condDoc (.obj [("decimal", .arr []), ("ip", .arr [])])) = .error .reject ∧
+    fromJ (condDoc (.obj [("nosuchfn", .arr [])])) = .error .reject :=
+  ⟨by decide +kernel, isRejectP_eq (by decide +kernel), isRejectP_eq (by decide +kernel)⟩
+
+/-- struct fields decoded before the unknown key stay set and win over the extension map: this document is
+    accepted as the empty set literal, the `decimal` entry is ignored -/
+theorem C09_known_field_beats_extension :
+    isCondP (fromJ (condDoc (.obj [("Set", .arr []), ("decimal", .arr [.obj [("Value", .str "1.0")]])])))
+        (fun e => match e with | .set [] => true | _ => false) = true := by decide +kernel
+
+/-- C10 overlap: a `null` record entry is a nil `*nodeJSON` that `ToNode` dereferences -/
+theorem C09_decoder_panic_counterexample :
+    fromJ (condDoc (.obj [("Record", .obj [("a", .null)])])) = .error .panic :=
+  isPanicP_eq (by decide +kernel)
 
 end CedarGo
